@@ -1004,7 +1004,7 @@ reg(Prop("C19", "The tuner optimises the same evaluation the engine plays with",
 
 reg(Prop("C09", "Fast checkmate and stalemate tests agree with the absence of legal moves", ["Properties/C09.v", "Properties/C09_closed.v"],
          [StreamCfg("c09", 12000, 800000, judge="judge_c09",
-                    rule="hand-constructed hard cases (smothered/back-rank mates, pinned interposers, en-passant capture of a "
+                    rule="constructed only-en-passant positions (G8: pushed pawn + 1-2 capturers, king on a theme line through capturer / landing square / captured pawn or in check by the pawn, sliders behind, enemy men added until the king has no flight; kept when every legal move is an en-passant capture, plus some near misses); hand-constructed hard cases (smothered/back-rank mates, pinned interposers, en-passant capture of a "
                          "checking pawn, double-push blocks, x-ray through the king, stalemates with pinned men, stalemate broken "
                          "only by en passant) with colour mirrors and single-piece mutations; small material sampled uniformly per "
                          "class from the integer-indexed enumerator (KQK KRK KPK KBNK KQKR KRKP KPKP, both colours, both sides to "
